@@ -25,7 +25,8 @@ pub const DEF: PropDef = PropDef {
 operations): the call must report the whole slice and the stream must contain byte j of the slice at stream bits [off+8j, off+8j+8) in the \
 stream's bit order (so at byte-aligned offsets the memory image contains the slice verbatim, which is checked directly as well). Enumerated \
 completely: every slice length 0..=40 x every offset 0..=2W x every writer word x both endiannesses; plus proptest-generated longer slices (up \
-to 600 bytes) interleaved with bit operations. Reader cases: (reader configuration, image, history with io::Read calls): every buffer length \
+to 600 bytes) interleaved with bit operations and io::Write::flush calls (which pad like BitWrite::flush and must emit nothing when nothing is \
+pending: enumerated on a fresh writer, after whole words, after partial words, twice in a row, always followed by further writes). Reader cases: (reader configuration, image, history with io::Read calls): every buffer length \
 0..=40 x every offset 0..=2W+1 x {plain, after a look-ahead refill, data ending right after the requested bytes} x every reader (buffered \
 u8..u64, unbuffered) x backends, enumerated completely, plus random histories; the bytes \
 obtained must be the next 8*len stream bits grouped in stream order and the count must be the buffer length. Oracle: bit model. Non-trivial: \
@@ -133,8 +134,23 @@ fn run(ctx: &Ctx, env: &Env) -> Stats {
                     for off in 0..=(2 * w.bits()) {
                         k += 1;
                         let backend = [WBackend::VecBorrowed, WBackend::Recording, WBackend::Adapter, WBackend::Slice, WBackend::VecOwned][k % 5];
-                        let after = if k % 3 == 0 { vec![WOp::Unary(3), WOp::IoWrite(data(k % 11, k as u64))] } else { vec![] };
+                        let after = match k % 6 {
+                            0 | 3 => vec![WOp::Unary(3), WOp::IoWrite(data(k % 11, k as u64))],
+                            1 => vec![WOp::IoFlush, WOp::IoWrite(data(k % 7, k as u64))],
+                            4 => vec![WOp::IoFlush, WOp::IoFlush, WOp::Unary(2)],
+                            _ => vec![],
+                        };
                         part.check(&Case::Write { cfg: WCfg::new(e, w, backend), off: off as u16, slice: data(len, (len * 1000 + off) as u64 + ctx.seed), write_all: k % 2 == 0, after }, &f);
+                    }
+                }
+                // io::Write::flush at word-aligned and unaligned positions (fresh writer, after whole words, twice in a
+                // row), followed by further writes: a flush with nothing pending must not emit anything
+                for off in [0usize, 3, w.bits() - 1, w.bits(), 2 * w.bits()] {
+                    for len in [0usize, 1, w.bytes(), 2 * w.bytes()] {
+                        for (j, backend) in [WBackend::VecBorrowed, WBackend::Recording, WBackend::Adapter, WBackend::VecOwned].into_iter().enumerate() {
+                            let after = vec![WOp::IoFlush, WOp::Bits { v: 5, n: 3 }, WOp::IoFlush, WOp::IoFlush, WOp::IoWrite(data(3 + j, 77)), WOp::Flush, WOp::IoFlush, WOp::Unary(1)];
+                            part.check(&Case::Write { cfg: WCfg::new(e, w, backend), off: off as u16, slice: data(len, (len + off) as u64), write_all: false, after }, &f);
+                        }
                     }
                 }
                 part.finish()
@@ -213,11 +229,13 @@ pub fn gen_write(s: &mut Src) -> Case {
     let n_after = s.below(4);
     let after = (0..n_after)
         .map(|_| {
-            if s.bool() {
-                let l = s.below(20);
-                WOp::IoWrite((0..l).map(|_| s.u8()).collect())
-            } else {
-                gen_wop_prim(s, w.bits(), false, true)
+            match s.below(5) {
+                0 | 1 => {
+                    let l = s.below(20);
+                    WOp::IoWrite((0..l).map(|_| s.u8()).collect())
+                }
+                2 => WOp::IoFlush,
+                _ => gen_wop_prim(s, w.bits(), false, true),
             }
         })
         .collect();
